@@ -9,7 +9,7 @@ from ..ctx import engine
 from ..model import AnalysisError, Program
 from ..paths import SymPath, show
 from ..report import Report
-from .common import is_loop_var, LOGIC, RUNNERS, SELF, STATE, attr, ctor_args, enum_name, runner_paths
+from .common import is_loop_var, LOGIC, RUNNERS, SELF, STATE, attr, ctor_args, enum_name, runner_paths, owned_by
 
 ST = ("param", "state")
 
@@ -60,59 +60,78 @@ def run(rep: Report, prog: Program, tier: str) -> None:
                 rep.fail("R4.1", f"{name}|return-value", f"{q}: returns {show(p.exit[1])}, not the value produced by the operation invocation of the final attempt", where=prog.func(q).where(), function=q, path=p.describe())
         if n < 1:
             raise AnalysisError(f"{q}: no returning path")
-    forwards = [
-        ("redress.policy.runner.sync_core:_call_with_timeout", ".submit().result"),
-        ("redress.policy.runner.sync_runner:run_sync_call", ":_run_sync_call"),
-        ("redress.policy.runner.async_runner:run_async_call", ":_run_async_call"),
-        ("redress.policy.retry_sync:Retry.call", ":run_sync_call"),
-        ("redress.policy.retry_async:AsyncRetry.call", ":run_async_call"),
-        ("redress.policy.policy:Policy._call_without_retry", "callback:operation"),
-        ("redress.policy.async_policy:AsyncPolicy._call_without_retry", "callback:operation"),
-        ("redress.policy.wrappers:RetryPolicy.call", "Policy.call"),
-        ("redress.policy.wrappers:AsyncRetryPolicy.call", "AsyncPolicy.call"),
-        ("redress.policy.context:_RetryContext.call", "Retry.call"),
-        ("redress.policy.context:_AsyncRetryContext.call", "AsyncRetry.call"),
-        ("redress.policy.context:_PolicyContext.call", "Policy.call"),
-        ("redress.policy.context:_AsyncPolicyContext.call", "AsyncPolicy.call"),
+    # forwarding layers: from every public entry point the returned term must be, on every returning path, the
+    # result of a call that is the operation itself or a delegate which (recursively) forwards the same way, down
+    # to the two call-runners checked above.  Intermediate helpers are discovered, not listed, so extracting or
+    # inlining one changes nothing here.
+    entries = [
+        "redress.policy.runner.sync_runner:run_sync_call",
+        "redress.policy.runner.async_runner:run_async_call",
+        "redress.policy.retry_sync:Retry.call",
+        "redress.policy.retry_async:AsyncRetry.call",
+        "redress.policy.policy:Policy.call",
+        "redress.policy.async_policy:AsyncPolicy.call",
+        "redress.policy.wrappers:RetryPolicy.call",
+        "redress.policy.wrappers:AsyncRetryPolicy.call",
+        "redress.policy.context:_RetryContext.call",
+        "redress.policy.context:_AsyncRetryContext.call",
+        "redress.policy.context:_PolicyContext.call",
+        "redress.policy.context:_AsyncPolicyContext.call",
     ]
-    for q, suffix in forwards:
-        fi = prog.func(q)
-        rep.analysed(q)
+    base = {RUNNERS["sync_call"], RUNNERS["async_call"]}
+    memo: dict[str, str | None] = {}
+
+    def forwards(fi, depth: int = 0) -> str | None:
+        """None if every returning path of `fi` hands back its delegate's / the operation's value unchanged"""
+        if fi.qual in base:
+            return None
+        if fi.qual in memo:
+            return memo[fi.qual]
+        memo[fi.qual] = None  # recursion guard
+        if depth > 8:
+            return f"forwarding chain deeper than 8 at {fi.qual}"
+        rep.analysed(fi.qual)
         rets = [p for p in engine(prog).paths(fi) if p.exit[0] == "return"]
         if not rets:
-            raise AnalysisError(f"{q}: no returning path")
+            raise AnalysisError(f"{fi.qual}: no returning path")
+        problem = None
         for p in rets:
             v = p.exit[1]
-            rep.instance("R4.1", f"forward|{q.split(':')[1]}")
-            if v[0] == "call" and str(v[2]).endswith(suffix):
-                rep.ok("R4.1")
+            rep.instance("R4.1", f"forward|{fi.qual.split(':')[1]}|{show(v)[:40]}")
+            why = None
+            if is_op_result(v, p) and not str(v[2]).endswith(":_call_with_timeout"):
+                pass
+            elif isinstance(v, tuple) and v[0] == "call" and str(v[2]).endswith(".submit().result"):
+                pass
+            elif isinstance(v, tuple) and v[0] == "call":
+                evs = [e for e in p.calls(pure=False) if e.result == v]
+                tg = [t for e in evs for t in e.targets]
+                if not tg or not all(t.kind == "repo" and t.func is not None for t in tg):
+                    why = f"returns {show(v)}, which is not the result of the operation or of a forwarding delegate"
+                else:
+                    for t in tg:
+                        why = why or forwards(t.func, depth + 1)
             else:
-                rep.fail("R4.1", f"forward|{q.split(':')[1]}", f"{q} returns {show(v)}; expected the unchanged result of {suffix}", where=fi.where(), function=q)
-    for q in ("redress.policy.policy:Policy.call", "redress.policy.async_policy:AsyncPolicy.call"):
-        fi = prog.func(q)
-        rep.analysed(q)
-        for p in engine(prog).paths(fi):
-            if p.exit[0] != "return":
-                continue
-            v = p.exit[1]
-            rep.instance("R4.1", f"forward|{q.split(':')[1]}|{show(v)[:40]}")
-            if v[0] == "call" and (str(v[2]).endswith("Retry.call") or str(v[2]).endswith("._call_without_retry")):
-                rep.ok("R4.1")
+                why = f"returns {show(v)}; expected the unchanged result of its delegate"
+            if why:
+                rep.fail("R4.1", f"forward|{fi.qual.split(':')[1]}", f"{fi.qual}: {why}", where=fi.where(), function=fi.qual, path=p.describe())
+                problem = problem or f"{fi.qual} does not forward ({why[:80]})"
             else:
-                rep.fail("R4.1", f"forward|{q.split(':')[1]}", f"{q} returns {show(v)}; expected the unchanged result of retry.call / _call_without_retry", where=fi.where(), function=q)
+                rep.ok("R4.1")
+        memo[fi.qual] = problem
+        return problem
+
+    for q in entries:
+        forwards(prog.func(q))
     # decorator wrappers
     dec = prog.func("redress.policy.decorator:retry")
     for sub in _all_nested(dec):
         if sub.name in ("wrapper", "async_wrapper"):
-            rep.analysed(sub.qual)
-            for p in engine(prog).paths(sub):
-                if p.exit[0] == "return":
-                    v = p.exit[1]
-                    rep.instance("R4.1", f"forward|decorator.{sub.name}")
-                    if v[0] == "call" and str(v[2]).endswith("RetryPolicy.call"):
-                        rep.ok("R4.1")
-                    else:
-                        rep.fail("R4.1", f"forward|decorator.{sub.name}", f"{sub.qual} returns {show(v)}", where=sub.where(), function=sub.qual)
+            forwards(sub)
+    reached = set(memo)
+    for need in ("redress.policy.wrappers:RetryPolicy.call", "redress.policy.wrappers:AsyncRetryPolicy.call"):
+        if need not in reached:
+            raise AnalysisError(f"R4.1: {need} not reached")
     rep.floor("R4.1", 2 + 13 + 2 + 2)
 
     rep.rule("R4.2", "re-raise identity: in the call-runners an ordinary exception leaves only as the handler-bound object itself (bare `raise` / `raise exc`), never wrapped, chained or with a replaced traceback")
@@ -290,7 +309,7 @@ def run(rep: Report, prog: Program, tier: str) -> None:
         for n in prog._own_nodes(fn.node):
             if isinstance(n, ast.Attribute) and n.attr in fields and isinstance(n.ctx, ast.Store):
                 rep.instance("R4.4", f"writer|{fn.qual}|{n.attr}")
-                if fn.qual in (rf.qual, f"{STATE}:_RetryState.__init__"):
+                if owned_by(prog, fn, (rf.qual, f"{STATE}:_RetryState.__init__")):
                     rep.ok("R4.4")
                 else:
                     rep.fail("R4.4", f"writer|{fn.qual}|{n.attr}", f"{fn.qual} writes `{n.attr}` (the run state must describe the final failure)", where=fn.where(n), function=fn.qual)
